@@ -58,7 +58,7 @@ fn trailers_str(t: Option<http::HeaderMap>) -> String {
     match t {
         None => "trailers:none".to_string(),
         Some(m) => {
-            if m.len() == 1 && m.get("x-t").map(|v| v == "v").unwrap_or(false) {
+            if m.len() == 1 && m.get("x-t").map(|v| v.as_bytes().iter().all(|b| *b == b'v')).unwrap_or(false) {
                 "trailers:T".to_string()
             } else {
                 format!("trailers:?{:?}", m).replace(' ', "")
@@ -69,15 +69,21 @@ fn trailers_str(t: Option<http::HeaderMap>) -> String {
 
 type Log = Rc<RefCell<Vec<String>>>;
 
-/// the body and trailers part, identical for both roles
-macro_rules! body_and_trailers {
-    ($stream:expr, $log:expr) => {{
+/// recv_data loop; with `$first_only` it stops (value 1) right after the first piece of data was shown.
+/// value 0: the body ended (bodyend logged); the task returns on an error.
+macro_rules! body_loop {
+    ($stream:expr, $log:expr, $first_only:expr) => {{
+        let mut status = 0;
         loop {
             let r = $stream.recv_data().await.map(|o| o.map(|mut d| d.copy_to_bytes(d.remaining())));
             match r {
                 Ok(Some(b)) => {
                     $log.borrow_mut().push(format!("d:{}", hex(&b)));
                     yield_once().await;
+                    if $first_only {
+                        status = 1;
+                        break;
+                    }
                 }
                 Ok(None) => {
                     $log.borrow_mut().push("bodyend".to_string());
@@ -90,6 +96,11 @@ macro_rules! body_and_trailers {
                 }
             }
         }
+        status
+    }};
+}
+macro_rules! trailers_part {
+    ($stream:expr, $log:expr) => {{
         match $stream.recv_trailers().await {
             Ok(t) => $log.borrow_mut().push(trailers_str(t)),
             Err(e) => $log.borrow_mut().push(stream_err_str(&e)),
@@ -97,8 +108,38 @@ macro_rules! body_and_trailers {
         "done".to_string()
     }};
 }
+/// the body and trailers part, identical for both roles; `$split`: 0 = never, 1 = split() right after the head and go
+/// on with the receive half, 2 = split() after the first piece of body data
+macro_rules! body_and_trailers {
+    ($stream:expr, $log:expr, $split:expr) => {{
+        if $split == 1 {
+            let (_send, mut recv) = $stream.split();
+            body_loop!(recv, $log, false);
+            trailers_part!(recv, $log)
+        } else if $split == 2 {
+            let mut whole = $stream;
+            if body_loop!(whole, $log, true) == 1 {
+                let (_send, mut recv) = whole.split();
+                body_loop!(recv, $log, false);
+                trailers_part!(recv, $log)
+            } else {
+                trailers_part!(whole, $log)
+            }
+        } else {
+            let mut whole = $stream;
+            body_loop!(whole, $log, false);
+            trailers_part!(whole, $log)
+        }
+    }};
+}
 
 fn run_case(role: &str, acts: &str) -> String {
+    let (role, split) = match role.split_once('+') {
+        Some((r, "split")) => (r, 1),
+        Some((r, "splitm")) => (r, 2),
+        Some(_) => return "driver-error bad-flag".into(),
+        None => (role, 0),
+    };
     let server = role == "s";
     let w = World::new(if server { Side::Server } else { Side::Client }, 100, 100, None);
     let mut ex = Exec::new();
@@ -129,7 +170,7 @@ fn run_case(role: &str, acts: &str) -> String {
                 Some(r) => r,
                 None => return "no-resolver".to_string(),
             };
-            let mut stream = match resolver.resolve_request().await {
+            let stream = match resolver.resolve_request().await {
                 Ok((req, stream)) => {
                     let ok = req.method() == http::Method::GET && req.uri().path() == "/";
                     log2.borrow_mut().push(if ok { "head:REQ".to_string() } else { format!("head:?{}", req.uri()) });
@@ -141,7 +182,7 @@ fn run_case(role: &str, acts: &str) -> String {
                     return "done".to_string();
                 }
             };
-            body_and_trailers!(stream, log2)
+            body_and_trailers!(stream, log2, split)
         });
         // set-up: the peer's control stream with an empty SETTINGS frame, then the request stream is opened
         for ev in ["U2", "2:c:000400", "B0"] {
@@ -195,7 +236,7 @@ fn run_case(role: &str, acts: &str) -> String {
                     return "done".to_string();
                 }
             }
-            body_and_trailers!(stream, log2)
+            body_and_trailers!(stream, log2, split)
         });
         for ev in ["U3", "3:c:000400"] {
             assert!(apply_event(&w, ev));
